@@ -227,7 +227,8 @@ CONFIG = Config()
 CONFIG.pid = "C04"
 CONFIG.props_module = "KsiVerif.Props.C04"
 CONFIG.required_theorems = ["rhoA_internal", "never_ok_unless_consistent", "key_tree", "key_ok_only_if", "userpub_tree", "userpub_ok_only_if",
-                             "pubfile_tree", "pubfile_ok_only_if", "calendar_tree", "calendar_ok_only_if", "general_tree", "general_ok_only_if"]
+                             "pubfile_tree", "pubfile_ok_only_if", "calendar_tree", "calendar_ok_only_if", "general_tree", "general_ok_only_if",
+                             "userpub_other_hash_PUB04", "userpub_extending_forbidden_NA", "key_certificate_window_KEY03"]
 CONFIG.translators = [tables.gen_templates, tables.gen_hashalgs, tables.gen_policies, tables.gen_crc]
 CONFIG.engines = [Engine("c04", ["exec_c04.c"], "drv_c04", gen, trivial=trivial)]
 CONFIG.rule = ("op lines from one PRNG (VERIF_SEED). hashlib-built signatures without calendar chain / with one and a publication record, an "
@@ -265,6 +266,8 @@ CONFIG.level_text = ("Kernel-checked for every hash function, signature, context
                      "user's publication time has the user's hash as root, that publication time, the signature's aggregation time and aggregation "
                      "root as input; publications-file-based: the same with a record of the file (found by time and hash, or the nearest one for the "
                      "extension); calendar-based: the extender's chain starts from the aggregation root at the aggregation time and has the signature "
-                     "chain's right links or, with a publication record, its root; general: one of the first three. The FAIL / NA classification of "
-                     "the other outcomes is compared case by case (model == implementation, label oracle), not proved.")
+                     "chain's right links or, with a publication record, its root; general: one of the first three. Of the FAIL / NA clause three "
+                     "representative cases are proved (another hash in the user's publication => FAIL PUB-04; extension needed but not allowed => NA "
+                     "GEN-02; certificate window not containing the aggregation time => FAIL KEY-03); the rest of that classification is compared case "
+                     "by case (model == implementation, label oracle).")
 CONFIG.level_note = ("Trusted: Lean kernel + standard axioms; the Anchor model and its differential tie (~1600 verifications quick).")
